@@ -437,16 +437,13 @@ func relayOp(r *relayInst, fs []string) string {
 				n++
 			}
 		}()
-		polls, incomplete, first := 0, 0, "-"
+		polls, incomplete, noans, first := 0, 0, 0, "-"
 		deadline := time.Now().Add(time.Duration(ms) * time.Millisecond)
 		for time.Now().Before(deadline) {
 			cur, ok := agents()
 			polls++
 			if !ok {
-				incomplete++
-				if first == "-" {
-					first = "no-answer"
-				}
+				noans++ // not an incomplete LISTING: counted apart (a machine under load may time a request out)
 				continue
 			}
 			for ua := range base {
@@ -462,7 +459,7 @@ func relayOp(r *relayInst, fs []string) string {
 		close(stop)
 		sent := <-done
 		_ = w.c.SetWriteDeadline(time.Time{})
-		return fmt.Sprintf("polls=%d incomplete=%d first=%s sent=%d", polls, incomplete, first, sent)
+		return fmt.Sprintf("polls=%d incomplete=%d first=%s sent=%d noanswer=%d", polls, incomplete, first, sent, noans)
 	case fs[0] == "raw" && len(fs) == 4:
 		p, ok := unhex(fs[2])
 		if !ok {
